@@ -22,7 +22,7 @@ int bits_equal(const uint8_t *a, int64_t a_bit, const uint8_t *b, int64_t b_bit,
 
 /* ---------- programs ---------- */
 enum { OP_SOURCE = 1, OP_SIGNAL, OP_FSR, OP_OMIT, OP_ANNO, OP_UTC, OP_USER, OP_FLUSH };
-enum { PAT_RANDOM = 0, PAT_WALK, PAT_BLOCKCONST, PAT_RAMP, PAT_SMALL, PAT_OFFSET /* large DC offset, small noise */ };
+enum { PAT_RANDOM = 0, PAT_WALK, PAT_BLOCKCONST, PAT_RAMP, PAT_SMALL, PAT_OFFSET /* large DC offset, small noise */, PAT_LONGZERO /* a run of constant-zero blocks longer than the writer's 32 KiB fill scratch */ };
 
 typedef struct {
     struct jls_signal_def_s def;   /* as submitted; name/units point into the fields below */
@@ -161,6 +161,7 @@ typedef struct {
     uint64_t *seq_anno[256], *seq_utc[256], *seq_user;
 } dump_t;
 void dump_keep_sequences(int on);
+void dump_prefix_lenient(int on);
 void dump_free(dump_t *d);
 /* 'a' (reader view of an unclosed original) must be a prefix of 'b' (its copy), list by list; FSR samples are
  * compared by reading both files.  Differences are reported under 'prop' with keys "<kp>|..." */
